@@ -73,7 +73,7 @@ RULES = {
 }
 
 
-GEN_PROPS = {'C01': PLAIN, 'C02': PLAIN, 'C04': FX, 'C06': PLAIN, 'C07': PLAIN, 'C08': PLAIN, 'C10': FX, 'C12': FAIL}
+GEN_PROPS = {'C01': PLAIN, 'C02': PLAIN, 'C04': FX, 'C05': FX, 'C06': PLAIN, 'C07': PLAIN, 'C08': PLAIN, 'C10': FX, 'C12': FAIL}
 
 
 def gen_machines(tier, seed):
